@@ -82,7 +82,7 @@ class _AttemptsLoop(RangeLoop):
 @unit(
     "retry.create_retry",
     props=["C10"],
-    functions=[(REL, "create_retry"), (REL, "identity")],
+    functions=[(REL, "create_retry"), (REL, "create_retry.<locals>.inner_retry"), (REL, "create_retry.<locals>.inner_retry.<locals>.wrapper"), (REL, "identity")],
     assumptions=["T7 user call functions do not touch uberjob internals", "T9 functools.wraps is transparent",
                  "precondition: attempts is an int (assert_is_instance is not under contract)"],
     min_obligations=10,
